@@ -5,6 +5,7 @@ package main
 import (
 	"fmt"
 	"go/token"
+	"go/types"
 	"math/big"
 	"strings"
 
@@ -499,6 +500,30 @@ func membershipBefore(w *World, fl *Flow, f *ssa.Function, app ssa.Instruction) 
 	if ReachAvoiding(f, nil, map[ssa.Instruction]bool{app: true}, cands) != nil {
 		return false, "a path reaches the append without the membership comparison"
 	}
+	// a boolean membership call (slices.Contains) must be *false* on every edge into the append,
+	// not merely evaluated before it (`!Contains(..) || other` lets the other disjunct through)
+	var calls []*ssa.Call
+	for in := range cands {
+		if c, ok := in.(*ssa.Call); ok && isBoolType(c.Type()) {
+			calls = append(calls, c)
+		}
+	}
+	if len(calls) > 0 {
+		isNeg := func(fa Fact) bool {
+			if fa.Kind != FFalse {
+				return false
+			}
+			for _, c := range calls {
+				if canon(fa.V) == ssa.Value(c) {
+					return true
+				}
+			}
+			return false
+		}
+		if !factOnEveryEdge(app, isNeg) {
+			return false, "the membership test does not govern the append on every path (another disjunct admits a repeated voter)"
+		}
+	}
 	return true, "membership comparison precedes the append"
 }
 
@@ -583,4 +608,34 @@ func onlyViaEventbus(w *World, cr *ClassReach, f *ssa.Function) bool {
 		return strings.HasSuffix(funcPkgPath(g), "/util/eventbus")
 	})
 	return rs[f] == nil
+}
+
+func isBoolType(t types.Type) bool {
+	b, ok := t.Underlying().(*types.Basic)
+	return ok && b.Kind() == types.Bool
+}
+
+// factOnEveryEdge: a fact satisfying pred dominates `in`, or holds on every incoming edge of its block.
+func factOnEveryEdge(in ssa.Instruction, pred func(Fact) bool) bool {
+	for _, fa := range FactsAt(in) {
+		if pred(fa) {
+			return true
+		}
+	}
+	pp := FactsPerPred(in.Block())
+	if len(pp) < 2 {
+		return false
+	}
+	for _, fs := range pp {
+		ok := false
+		for _, fa := range fs {
+			if pred(fa) {
+				ok = true
+			}
+		}
+		if !ok {
+			return false
+		}
+	}
+	return true
 }
